@@ -13,7 +13,7 @@ theorem scatter_spec (hU : Univ U) (hT : TombClosed U) {cfg : Cfg} (hcfg : cfg.l
     {c : Cluster Desc} (hinv : Inv U c) (his : ∀ i ∈ is, i ≠ 0 ∧ i < c.nodes.length) :
     let c' := runC cfg c (is.map fun i => Event.pushPull 0 i)
     Inv U c' ∧ (∀ j, j ∉ is → c'.nodes[j]? = c.nodes[j]?) ∧ c'.nodes.length = c.nodes.length ∧
-    (∀ j ∈ is, ∀ k, Eqv (nval c' j k) (mergeState (nval c j k) (nval c 0 k))) := by
+    (∀ j ∈ is, ∀ k, k ≠ "" → Eqv (nval c' j k) (mergeState (nval c j k) (nval c 0 k))) := by
   induction is generalizing c with
   | nil => exact ⟨hinv, fun _ _ => rfl, rfl, fun j hj => by simp at hj⟩
   | cons i is ih =>
@@ -27,13 +27,13 @@ theorem scatter_spec (hU : Univ U) (hT : TombClosed U) {cfg : Cfg} (hcfg : cfg.l
     · intro j hj
       simp only [List.mem_cons, not_or] at hj
       exact (hO j hj.2).trans (hoth j hj.1)
-    · intro j hj k
+    · intro j hj k hkne
       rcases List.mem_cons.1 hj with h | h
       · subst h
         rw [nval_congr (hO j hnd.1) k]
-        exact hview k
+        exact hview k hkne
       · have hji : j ≠ i := fun e => hnd.1 (e ▸ h)
-        have := hV j h k
+        have := hV j h k hkne
         rw [nval_congr (hoth j hji) k, nval_congr (hoth 0 (fun e => hi0 e.symm)) k] at this
         exact this
 
@@ -50,7 +50,7 @@ theorem syncEvents_eq (n : Nat) :
 loss, duplication, reordering, delay, partition, restarts), the two full-state sync passes leave
 every node with the join of all stores, for every key. -/
 theorem sync_converges (hU : Univ U) (hT : TombClosed U) {cfg : Cfg} (hcfg : cfg.lit = 0) {c : Cluster Desc}
-    (hinv : Inv U c) (h0 : 0 < c.nodes.length) (i : Nat) (hi : i < c.nodes.length) (key : String) :
+    (hinv : Inv U c) (h0 : 0 < c.nodes.length) (i : Nat) (hi : i < c.nodes.length) (key : String) (hkey : key ≠ "") :
     Eqv (nval (runC cfg c (syncEvents Desc (c.nodes.length - 1))) i key)
       (joinAll ((List.range c.nodes.length).map fun j => nval c j key)) := by
   rw [syncEvents_eq, runC_append]
@@ -69,7 +69,7 @@ theorem sync_converges (hU : Univ U) (hT : TombClosed U) {cfg : Cfg} (hcfg : cfg
   -- the join held by node 0 after pass 1
   have hgood : ∀ v ∈ is.map (fun j => nval c j key), GoodVal U c.clock v := by
     intro v hv; obtain ⟨j, _, rfl⟩ := List.mem_map.1 hv; exact nval_drawn hinv j key
-  have hJ := hV1 key
+  have hJ := hV1 key hkey
   -- node 0 after pass 1 = join of all
   have hjoin : Eqv ((is.map fun j => nval c j key).foldl mergeState (nval c 0 key))
       (joinAll ((List.range c.nodes.length).map fun j => nval c j key)) := by
@@ -89,7 +89,7 @@ theorem sync_converges (hU : Univ U) (hT : TombClosed U) {cfg : Cfg} (hcfg : cfg
     exact hJ.trans hjoin
   · have him : i ∈ is := by
       rw [his]; exact List.mem_map.2 ⟨i - 1, List.mem_range.2 (by omega), by omega⟩
-    refine (hV2 i him key).trans ?_
+    refine (hV2 i him key hkey).trans ?_
     rw [nval_congr (hO1 i hi0) key]
     -- the pulled join already contains the node's own value
     have hd0 : GoodVal U c.clock (nval c1 0 key) := by have := nval_drawn hI1 0 key; rwa [hC1] at this
@@ -111,8 +111,8 @@ theorem le_joinAll (hU : Univ U) {c : Cluster Desc} (hinv : Inv U c) (j : Nat) (
   · intro v hv; obtain ⟨a, _, rfl⟩ := List.mem_map.1 hv; exact nval_drawn hinv a key
 
 theorem acked_visible (hU : Univ U) (hT : TombClosed U) {cfg : Cfg} (hcfg : cfg.lit = 0) {c : Cluster Desc}
-    (hinv : Inv U c) (h0 : 0 < c.nodes.length) (i j : Nat) (hi : i < c.nodes.length) (hj : j < c.nodes.length) (key : String) :
-    Le (nval c j key) (nval (runC cfg c (syncEvents Desc (c.nodes.length - 1))) i key) :=
-  Le.of_eqv_right (sync_converges hU hT hcfg hinv h0 i hi key).symm (le_joinAll hU hinv j hj key)
+    (hinv : Inv U c) (h0 : 0 < c.nodes.length) (i j : Nat) (hi : i < c.nodes.length) (hj : j < c.nodes.length) (key : String)
+    (hkey : key ≠ "") : Le (nval c j key) (nval (runC cfg c (syncEvents Desc (c.nodes.length - 1))) i key) :=
+  Le.of_eqv_right (sync_converges hU hT hcfg hinv h0 i hi key hkey).symm (le_joinAll hU hinv j hj key)
 
 end PfC06
